@@ -1,5 +1,6 @@
 import Cppcheck.Proofs.Template
-import Cppcheck.Model.Sarif
+import Cppcheck.Proofs.XmlEsc
+import Cppcheck.Proofs.Sarif
 import Cppcheck.Gen.TinyXmlEntities
 import Cppcheck.Gen.Templates
 import Cppcheck.Gen.RngAttrs
@@ -24,14 +25,160 @@ theorem predefined_templates_wf :
       (parseTemplate (substituteStatic erase colors t.2.1)).isSome = true ∧
       (parseTemplate (substituteStatic erase colors t.2.2)).isSome = true := by decide +kernel
 
-/-! ## text output -/
+/-! ## XML output -/
 
-theorem openFree_noOpen {s : Str} (h : openFree s = true) : noOpen s := by
-  intro c hc
-  unfold openFree at h
-  rw [List.all_eq_true] at h
-  have := h c hc
-  simpa using this
+/-- **XML carries the finding** (partial: the full statement is refuted below).
+    For every finding whose *unsanitised* strings (id, guideline, classification, file0, file names, symbol names —
+    the ones `toXML` passes to tinyxml2 without `fixInvalidChars`) hold no C0 control byte and are valid UTF-8, a
+    conforming reader accepts `toXML f` and recovers exactly `sanitize f`: the documented fields, messages / remark /
+    location info with their non-printable bytes written as `\ooo` — whatever bytes those hold. -/
+theorem toXML_roundtrip_partial (f : Finding) (h : RawOK f = true) : parseError (toXML f) = some (sanitize f) := by
+  unfold parseError
+  rw [readXml_toXML f h]
+  exact readError_events f
+
+/-- … in particular the output is well-formed -/
+theorem toXML_wf_partial (f : Finding) (h : RawOK f = true) : wf (toXML f) = true := by
+  unfold wf
+  rw [readXml_toXML f h]; rfl
+
+/-- `RawOK` does not look at the message texts, the remark or the location infos: arbitrary bytes there never break
+    the report (they go through `fixInvalidChars`) -/
+theorem rawOK_ignores_messages (f : Finding) (m v r : Str) (infos : Loc → Str) :
+    RawOK { f with shortMsg := m, verboseMsg := v, remark := r, stack := f.stack.map (fun l => { l with info := infos l }) } =
+      RawOK f := by
+  unfold RawOK
+  simp [List.all_map, Function.comp_def]
+
+/-- the hypothesis is satisfiable by a hostile case: every XML-special character, control bytes, NUL and invalid
+    UTF-8 in message and info, UTF-8 and XML-special characters in the file name and symbol -/
+example : RawOK { id := "nullPointer".toList, severity := 1, cwe := 476, inconclusive := true,
+                  shortMsg := ['<', '&', '"', '\'', '>', Char.ofNat 1, Char.ofNat 0, Char.ofNat 0xE9, '\n'],
+                  verboseMsg := "v".toList, symbols := "a<b\nc".toList,
+                  stack := [⟨[Char.ofNat 0xC3, Char.ofNat 0xA9, '&', '.', 'c'], "o.c".toList, 3, 5, [Char.ofNat 7]⟩] } = true := by
+  decide +kernel
+
+def xmlWitness : Finding :=
+  { id := "x".toList, severity := 1, shortMsg := "m".toList, verboseMsg := "m".toList,
+    stack := [⟨['a', Char.ofNat 1, '.', 'c'], ['a', Char.ofNat 1, '.', 'c'], 1, 1, []⟩] }
+
+/-- **F26b** — the full statement is false of the code: a control byte in a file name is written raw, and no XML
+    processor accepts the result. -/
+theorem toXML_wf_counterexample : ¬ ∀ f : Finding, wf (toXML f) = true := by
+  intro h
+  have := h xmlWitness
+  revert this
+  decide +kernel
+
+/-- a tab in a file name keeps the report well-formed but is read back as a blank (attribute-value normalisation) -/
+theorem toXML_roundtrip_counterexample :
+    ∃ f : Finding, wf (toXML f) = true ∧ parseError (toXML f) ≠ some (sanitize f) := by
+  refine ⟨{ id := "x".toList, severity := 1, shortMsg := "m".toList, verboseMsg := "m".toList,
+            stack := [⟨['a', '\t', 'b'], ['a', '\t', 'b'], 1, 1, []⟩] }, ?_, ?_⟩ <;> decide +kernel
+
+/-! ### conformance to cppcheck-errors.rng (grammar extracted by the translator: `Gen.RngAttrs`) -/
+
+theorem rng_els : (lookupEl Gen.RngAttrs.elements "error".toList).isSome = true ∧
+    (lookupEl Gen.RngAttrs.elements "location".toList).isSome = true ∧
+    (lookupEl Gen.RngAttrs.elements "symbol".toList).isSome = true ∧
+    (elCh Gen.RngAttrs.elements "error".toList).contains "location".toList = true ∧
+    (elCh Gen.RngAttrs.elements "error".toList).contains "symbol".toList = true := by decide +kernel
+
+/-- every combination of the optional attributes `toXML` writes for a plain finding is admitted by the grammar -/
+theorem rng_error_names : ∀ bcwe bhash binc bf0 : Bool,
+    namesConform (elReq Gen.RngAttrs.elements "error".toList) (elOpt Gen.RngAttrs.elements "error".toList)
+      (namesOf (errNameTable false false bcwe bhash binc bf0 false)) = true := by decide +kernel
+
+theorem rng_loc_names : ∀ binfo : Bool,
+    namesConform (elReq Gen.RngAttrs.elements "location".toList) (elOpt Gen.RngAttrs.elements "location".toList)
+      (namesOf (locNameTable false binfo)) = true := by decide +kernel
+
+theorem rng_sev : ∀ n, n < 7 → 1 ≤ n → Gen.RngAttrs.severityValues.contains (cstr (sevStr n)) = true := by decide +kernel
+
+/-- **XML conforms to cppcheck-errors.rng** (element / attribute grammar; partial): for every finding without
+    guideline / classification / remark, whose locations have `origfile = file`, with one of the six user-visible
+    severities, the data carried by `toXML f` satisfies the grammar of the working tree's cppcheck-errors.rng —
+    all required attributes present, no attribute outside the schema, severity among the listed values.
+    (The excluded findings are the point of finding F26d: the schema does not know `origfile`, `remark`,
+    `guideline`, `classification`, nor the severity `debug`.) -/
+theorem toXML_conforms_rng_partial (f : Finding) (h : rngPlain f = true) :
+    conformsRng Gen.RngAttrs.elements Gen.RngAttrs.severityValues (sanitize f) = true := by
+  unfold rngPlain at h
+  simp only [Bool.and_eq_true, decide_eq_true_eq, List.all_eq_true] at h
+  obtain ⟨⟨⟨⟨⟨hgl, hcl⟩, hrem⟩, horig⟩, hs1⟩, hs2⟩ := h
+  obtain ⟨e1, e2, e3, e4, e5⟩ := rng_els
+  unfold conformsRng
+  rw [e1, e2, e3, e4, e5, lookup_severity]
+  simp only [Bool.true_and, Bool.or_true, Bool.and_true, Bool.and_eq_true, List.all_eq_true]
+  refine ⟨⟨?_, ?_⟩, ?_⟩
+  · show namesConform _ _ ((carried (errAttrTable f)).map (fun a => a.1)) = true
+    rw [carried_names]
+    have : (errAttrTable f).map (fun x => (x.1.toList, x.2.1)) =
+        errNameTable (decide (f.guideline ≠ [])) (decide (f.classification ≠ [])) (decide (f.cwe ≠ 0)) (decide (f.hash ≠ 0))
+          f.inconclusive (decide (f.file0 ≠ [])) (decide (f.remark ≠ [])) := rfl
+    rw [this]
+    simp only [hgl, hcl, hrem, ne_eq, not_true_eq_false, decide_false]
+    exact rng_error_names _ _ _ _
+  · exact rng_sev f.severity (by omega) hs1
+  · intro la hla
+    simp only [sanitize, List.mem_map, List.mem_reverse] at hla
+    obtain ⟨l, hl, rfl⟩ := hla
+    rw [carried_names]
+    have : (locAttrTable l).map (fun x => (x.1.toList, x.2.1)) =
+        locNameTable (decide (l.origFile ≠ l.file)) (decide (l.info ≠ [])) := rfl
+    rw [this]
+    have ho := horig l hl
+    simp only [ho, ne_eq, not_true_eq_false, decide_false]
+    exact rng_loc_names _
+
+example : rngPlain { id := "nullPointer".toList, severity := 1, cwe := 476, inconclusive := true, file0 := "a.c".toList,
+                     shortMsg := "m".toList, verboseMsg := "v".toList, symbols := "p".toList,
+                     stack := [⟨"a.c".toList, "a.c".toList, 3, 5, "info".toList⟩] } = true := by decide +kernel
+
+/-! ## SARIF output -/
+
+/-- **SARIF carries the located findings**: the result list is, in order, one result per finding with a call stack,
+    and reading a result back gives the finding's id, short message, level (`sarifSeverity`) and per location the
+    file, line and column (values below 1 written as 1). Findings *without* location are not in the report
+    ("github only supports findings with locations"): `located`. -/
+theorem sarif_results (fs : List Finding) :
+    (results fs).map readResult = (located fs).map (fun f => some (expectedResult f)) := by
+  unfold results
+  rw [List.map_map]
+  apply List.map_congr_left
+  intro f _
+  exact readResult_resultJson f
+
+/-- the rules are the ids of the located findings, each once, and every result refers to one of them -/
+theorem sarif_rules (fs : List Finding) :
+    (rules fs).map (fun j => (j.get "id").bind Json.strVal) = (firstOfId (located fs) []).map (fun f => some f.id) ∧
+    ((firstOfId (located fs) []).map (fun f => f.id)).Nodup ∧
+    ∀ f ∈ located fs, f.id ∈ (firstOfId (located fs) []).map (fun f => f.id) := by
+  refine ⟨?_, (firstOfId_spec (located fs) []).1, ?_⟩
+  · unfold rules
+    rw [List.map_map]
+    apply List.map_congr_left
+    intro f _
+    exact ruleJson_id f
+  · intro f hf
+    rcases (firstOfId_spec (located fs) []).2.2 f hf with h | h
+    · simp at h
+    · exact h
+
+/-- a finding without location is dropped from the SARIF report (stated, not a defect of the writer: it is the
+    documented choice of sarifreport.cpp) -/
+theorem sarif_drops_unlocated :
+    ∃ f : Finding, f.severity ≠ 8 ∧ results [f] = [] := by
+  refine ⟨{ id := "checkersReport".toList, severity := 6, shortMsg := "m".toList, verboseMsg := "m".toList }, by decide, by decide⟩
+
+/-- **JSON strings are escaped faithfully**: for every byte string, a strict JSON string reader decodes what
+    picojson's `serialize_str` wrote back to the same bytes (so quotes, backslashes, control bytes, DEL in messages,
+    ids and file names never break the document structure). Whole-document JSON well-formedness of
+    `serializeSarif` is not proved here (tie: python `json` on every generated report). -/
+theorem sarif_string_roundtrip (s rest : Str) : jsonStrDecode ((jsonStr s).drop 1 ++ rest) = some (s, rest) :=
+  jsonStr_decode s rest
+
+/-! ## text output -/
 
 /-- **Text = simultaneous substitution** (partial: the full statement is refuted below).
     For every finding, every message template `tf` and location template `tl` that tokenize (`parseTemplate`: no
@@ -83,73 +230,6 @@ example : Spec.render (fun _ => []) f10Witness false [.mk "message".toList] [] =
 
 /-! ## each finding once (`StdLogger::reportErr`) -/
 
-theorem stdLoggerGo_mem (render : Finding → Str) : ∀ (fs : List Finding) (shown : List Str) (f : Finding),
-    f ∈ stdLoggerGo render fs shown → f ∈ fs ∧ f.severity ≠ 8 ∧ render f ∉ shown := by
-  intro fs
-  induction fs with
-  | nil => intro shown f h; simp [stdLoggerGo] at h
-  | cons g r ih =>
-    intro shown f h
-    simp only [stdLoggerGo] at h
-    split at h
-    · have := ih shown f h; exact ⟨by simp [this.1], this.2⟩
-    · rename_i hsev
-      split at h
-      · have := ih shown f h; exact ⟨by simp [this.1], this.2⟩
-      · rename_i hshown
-        simp only [List.mem_cons] at h
-        rcases h with rfl | h
-        · exact ⟨by simp, hsev, by simpa using hshown⟩
-        · have := ih (render g :: shown) f h
-          exact ⟨by simp [this.1], this.2.1, fun hm => this.2.2 (by simp [hm])⟩
-
-/-- no rendering is printed twice -/
-theorem each_once_nodup (render : Finding → Str) : ∀ (fs : List Finding) (shown : List Str),
-    ((stdLoggerGo render fs shown).map render).Nodup := by
-  intro fs
-  induction fs with
-  | nil => intro shown; simp [stdLoggerGo]
-  | cons g r ih =>
-    intro shown
-    simp only [stdLoggerGo]
-    split
-    · exact ih shown
-    · split
-      · exact ih shown
-      · rw [List.map_cons, List.nodup_cons]
-        refine ⟨?_, ih _⟩
-        intro hm
-        simp only [List.mem_map] at hm
-        obtain ⟨f, hf, he⟩ := hm
-        have := (stdLoggerGo_mem render r (render g :: shown) f hf).2.2
-        exact this (by simp [he])
-
-/-- every rendering of a non-internal finding is printed (so, with `each_once_nodup`, exactly once) -/
-theorem each_once_covered (render : Finding → Str) : ∀ (fs : List Finding) (shown : List Str) (f : Finding),
-    f ∈ fs → f.severity ≠ 8 → render f ∈ shown ∨ render f ∈ (stdLoggerGo render fs shown).map render := by
-  intro fs
-  induction fs with
-  | nil => intro shown f h; simp at h
-  | cons g r ih =>
-    intro shown f hf hsev
-    simp only [List.mem_cons] at hf
-    simp only [stdLoggerGo]
-    rcases hf with rfl | hf
-    · rw [if_neg hsev]
-      split
-      · rename_i hs; left; simpa using hs
-      · right; simp
-    · split
-      · exact ih shown f hf hsev
-      · split
-        · exact ih shown f hf hsev
-        · rcases ih (render g :: shown) f hf hsev with h | h
-          · simp only [List.mem_cons] at h
-            rcases h with h | h
-            · right; simp [h]
-            · left; exact h
-          · right; simp only [List.map_cons, List.mem_cons]; right; exact h
-
 /-- **Each finding once**: the renderings handed to the writer are pairwise distinct, and the rendering of every
     non-internal finding of the run is among them. -/
 theorem each_once (render : Finding → Str) (fs : List Finding) :
@@ -163,42 +243,15 @@ theorem each_once (render : Finding → Str) (fs : List Finding) :
 
 /-- when the text renderings of the non-internal findings are pairwise distinct, no finding is dropped — the
     hypothesis under which the XML / SARIF writers receive every finding (they share the text-keyed filter) -/
-theorem stdLogger_all_partial (render : Finding → Str) : ∀ (fs : List Finding) (shown : List Str),
-    ((fs.filter (fun f => f.severity ≠ 8)).map render).Nodup →
-    (∀ f ∈ fs, f.severity ≠ 8 → render f ∉ shown) →
-    stdLoggerGo render fs shown = fs.filter (fun f => f.severity ≠ 8) := by
-  intro fs
-  induction fs with
-  | nil => intro shown _ _; rfl
-  | cons g r ih =>
-    intro shown hnd hns
-    simp only [stdLoggerGo]
-    by_cases hsev : g.severity = 8
-    · rw [if_pos hsev]
-      have : (g :: r).filter (fun f => decide (f.severity ≠ 8)) = r.filter (fun f => decide (f.severity ≠ 8)) := by
-        simp [List.filter, hsev]
-      rw [this] at hnd ⊢
-      exact ih shown hnd (fun f hf => hns f (by simp [hf]))
-    · rw [if_neg hsev]
-      have hflt : (g :: r).filter (fun f => decide (f.severity ≠ 8)) = g :: r.filter (fun f => decide (f.severity ≠ 8)) := by
-        simp [List.filter, hsev]
-      rw [hflt] at hnd ⊢
-      rw [List.map_cons, List.nodup_cons] at hnd
-      have hg : render g ∉ shown := hns g (by simp) hsev
-      have : shown.contains (render g) = false := by simpa using hg
-      rw [this]
-      simp only [Bool.false_eq_true, if_false]
-      congr 1
-      apply ih _ hnd.2
-      intro f hf hfs hm
-      simp only [List.mem_cons] at hm
-      rcases hm with hm | hm
-      · apply hnd.1
-        rw [← hm]
-        exact List.mem_map.mpr ⟨f, by simp [List.mem_filter, hf, hfs], rfl⟩
-      · exact hns f (by simp [hf]) hfs hm
+theorem stdLogger_all_partial (render : Finding → Str) (fs : List Finding)
+    (h : ((fs.filter (fun f => f.severity ≠ 8)).map render).Nodup) :
+    stdLogger render fs = fs.filter (fun f => f.severity ≠ 8) :=
+  stdLoggerGo_all render fs [] h (fun _ _ _ hm => by simp at hm)
 
-example : ((["a".toList, "b".toList]).map id).Nodup := by decide
+example : (([{ id := "a".toList, severity := 1, shortMsg := "x".toList, verboseMsg := "x".toList },
+             { id := "b".toList, severity := 2, shortMsg := "y".toList, verboseMsg := "y".toList }] : List Finding).filter
+            (fun f => f.severity ≠ 8)).map (fun f => toString (fun _ => []) f false "{id}:{message}".toList []) |>.Nodup := by
+  decide +kernel
 
 /-- the filter key is the *text*: two findings that differ only in a field the template does not show (here the CWE
     number under `{file}:{line}: {message} [{id}]`) reach the XML / SARIF writer as one -/
